@@ -208,6 +208,22 @@ def run(ctx, out):
         ('Pair[int](1, 2) == Pair(1, 2)', eqv(Pair[int](1, 2), Pair(1, 2)), True), ('Pair[int](1, 2) == Pair[float](1, 2)', eqv(Pair[int](1, 2), Pair[float](1, 2)), True),
         ('Pair[int](1, 2) == G[int](1)', eqv(Pair[int](1, 2), G[int](1)), False), ('Pair(1, 2) == Pair(1, 3)', eqv(Pair(1, 2), Pair(1, 3)), False),
     ]
+    # ordering is consistent with equality: where == compares (same class modulo generic parameters), so do <, <=, >, >=
+    def ordv(a, b):
+        try:
+            return (a < b, a <= b, a > b, a >= b)
+        except Exception as e:
+            return f'raised {type(e).__name__}'
+    for label, a, b, want in (
+            ('G[int](1) vs G[str].make_unchecked(1)', G[int](1), G[str].make_unchecked(1), (False, True, False, True)),
+            ('G[int](1) vs G(2)', G[int](1), G(2), (True, True, False, False)), ('G(2) vs G[int](1)', G(2), G[int](1), (False, False, True, True)),
+            ('Pair[int](1, 2) vs Pair[float](1, 3)', Pair[int](1, 2), Pair[float](1, 3), (True, True, False, False)),
+            ('IntBox(1) vs G[int](1)', IntBox(1), G[int](1), 'raised TypeError'), ('IntBox(1) vs OtherBox(1)', IntBox(1), OtherBox(1), 'raised TypeError')):
+        n += 1
+        got = ordv(a, b)
+        if got != want:
+            out.violation('C16:order-vs-generic-parameters', f'{label}: (<, <=, >, >=) gave {got!r}, expected {want!r}; == gives {eqv(a, b)!r} '
+                          '(ordering compares what equality compares: the class, ignoring generic parameters)', {'comparison': label})
     n += len(rows)
     for label, got, want in rows:
         if got is not want:
